@@ -200,7 +200,10 @@ impl Db {
         if rebuild {
             log::info!("rebuilding search index at {}", config.index_path.display());
 
-            let mut writer = db.index.writer(50_000_000)?;
+            // NB: a single indexing thread, so that the order of the documents
+            // in the index (which decides between equally good matches) is the
+            // order of the shipped data and not that of a thread schedule.
+            let mut writer = db.index.writer_with_num_threads(1, 50_000_000)?;
             #[cfg(anything_verif)]
             crate::verif::crashpoint("writer_created");
             writer.delete_all_documents()?;
